@@ -435,12 +435,15 @@ def composite_parts(rng, S):
     # make sure two neighbouring parts do not commute: scale, then a position-dependent shift
     nodes[0] = {'k': 'aff', 'e': 1, 'sg': 1, 's': 0}
     nodes[1] = {'k': 'tag', 'm': 1, 't': 4, 'cm': 0}
+    if rng.random() < 0.5:
+        # the same part listed more than once (one object)
+        nodes = nodes + [dict(nodes[0]), dict(nodes[1])][:rng.randint(1, 2)]
     return nodes
 
 
 def oracle_composite(nodes, S, B=2):
     x, c = tagged(B, S)
-    parts = [W.build(n) for n in nodes]
+    parts = W.build_tied(nodes)
     comp = CompositeTransform(p for p in parts) if len(parts) % 2 == 0 else CompositeTransform(parts)   # a one-shot iterable is a documented argument
     match = {'wrapper': 'composite'}
     with torch.no_grad():
